@@ -209,14 +209,9 @@ namespace TrRouting
             else
             {
               usedOptimizationCases.push_back(1);
-              if (toJourneyStepIdx - fromJourneyStepIdx == 1)
-              {
-                journey.erase(journey.begin() + toJourneyStepIdx);
-              }
-              else if (toJourneyStepIdx - fromJourneyStepIdx > 1) // could not split correctly...
-              {
-                journey.erase(journey.begin() + fromJourneyStepIdx + 1, journey.begin() + toJourneyStepIdx);
-              }
+              // the shortened leg is now followed by the walk that followed the last removed leg
+              journey[fromJourneyStepIdx].copyTransferTimeDistance(journey[toJourneyStepIdx]);
+              journey.erase(journey.begin() + fromJourneyStepIdx + 1, journey.begin() + toJourneyStepIdx + 1);
               journey[fromJourneyStepIdx].setFinalExitConnection(connection);
 
               break;
@@ -246,7 +241,9 @@ namespace TrRouting
             {
               usedOptimizationCases.push_back(2);
               journey[toJourneyStepIdx].setFinalEnterConnection(connection);
-              journey[toJourneyStepIdx].setTransferTimeDistance(0,0);
+              // boarding now happens where the previous kept leg ends: no walk, no leg in between
+              journey[fromJourneyStepIdx].setTransferTimeDistance(0,0);
+              journey.erase(journey.begin() + fromJourneyStepIdx + 1, journey.begin() + toJourneyStepIdx);
               break;
             }
           }
@@ -275,7 +272,9 @@ namespace TrRouting
             {
               usedOptimizationCases.push_back(3);
               journey[fromJourneyStepIdx].setFinalExitConnection(connection);
-              journey[toJourneyStepIdx].setTransferTimeDistance(0,0);
+              // unboarding now happens where the next kept leg boards: no walk, no leg in between
+              journey[fromJourneyStepIdx].setTransferTimeDistance(0,0);
+              journey.erase(journey.begin() + fromJourneyStepIdx + 1, journey.begin() + toJourneyStepIdx);
               break;
             }
           }
@@ -321,6 +320,10 @@ namespace TrRouting
                 usedOptimizationCases.push_back(4);
                 journey[fromJourneyStepIdx].setFinalExitConnection(exitConnection.value());
                 journey[toJourneyStepIdx].setFinalEnterConnection(connection);
+                // both legs now meet at the common node: no walk, no leg in between
+                journey[fromJourneyStepIdx].setTransferTimeDistance(0,0);
+                journey.erase(journey.begin() + fromJourneyStepIdx + 1, journey.begin() + toJourneyStepIdx);
+                break;
               }
               else
               {
